@@ -137,6 +137,13 @@ def gen_cases(ctx):
                 t = rng.choice([(), s[:1], s[1:2], s[-1:], sub_of(s), rs(1), rs(2)])
                 for i in F.index_pool(len(s)):
                     cases.append((op, (s, t, i)))
+        elif op == "StrConcat3":
+            for a in S1:
+                for b in S1:
+                    for c in S1[:6]:
+                        cases.append((op, (a, b, c)))
+            for _ in range(300 * mult):
+                cases.append((op, (rs(), rs(2), rs())))
         elif sig == "sss":
             for _ in range(1500 * mult):
                 s = rs() if rng.random() < 0.6 else rlong()
@@ -247,7 +254,7 @@ def run(ctx):
         "lone surrogates (U+D800..U+DFFF) cannot be carried by a claripy StringV at all (ast/base.py hashes with str.encode()): excluded "
         "from literals going in; included in values coming out of Z3",
     ]
-    ctx.cov["rule"] = ("cases = (operation, literal operands); strings over the alphabet {a b . ( \\ NUL \\n e-acute U+1F600 U+2FFFF U+10FFFF "
+    ctx.cov["rule"] = ("cases = (operation, literal operands); strings over the alphabet {a b A . ( \\ NUL \\n e-acute U+1F600 U+2FFFF U+10FFFF "
                        "arabic-5 - 0..9}: all of length <=2 (x all of length <=1 for binary ops; length <=3 in thorough for unary), random to length 12 "
                        "with sub-/prefix-/suffix-related second operands; indices from {0,1,2,len-1,len,len+1,2^63-1,2^63,2^64-2,2^64-1}; "
                        "codec pool = alphabet strings + 1500/12000 escape-like texts (\\u{h*}, \\uhhhh, mutated); non-trivial = distinct "
@@ -443,7 +450,7 @@ def e2e(op, a):
         else:
             args.append(claripy.BVV(v, 64))
     try:
-        e = getattr(claripy.ast.String, op)(*args) if op in ("__eq__", "__ne__") else getattr(claripy, op)(*args)
+        e = getattr(claripy.ast.String, op)(*args) if op in ("__eq__", "__ne__") else getattr(claripy, "StrConcat" if op == "StrConcat3" else op)(*args)
         s = claripy.Solver()
         s.add(x == claripy.StringV(F.to_str(a[k0])))
         if sp[0] == "b":
